@@ -404,6 +404,24 @@ static int32_t fsr_statistics(struct jls_core_s * self, uint16_t signal_id,
     return 0;
 }
 
+// The number of samples held by a data chunk: a partial chunk holds fewer than samples_per_data.
+static uint32_t fsr_data_entry_count(const struct jls_fsr_data_s * s, const struct jls_signal_def_s * signal_def) {
+    uint32_t entry_count = s->header.entry_count;
+    if (entry_count > signal_def->samples_per_data) {
+        entry_count = signal_def->samples_per_data;
+    }
+    return entry_count;
+}
+
+// The number of samples to convert for a data chunk: sub-byte types are converted a whole byte at a time.
+static uint32_t fsr_data_convert_count(uint32_t entry_count, const struct jls_signal_def_s * signal_def) {
+    uint32_t convert_count = (entry_count + 7) & ~((uint32_t) 7);
+    if (convert_count > signal_def->samples_per_data) {
+        convert_count = signal_def->samples_per_data;
+    }
+    return convert_count;
+}
+
 int32_t jls_core_fsr_statistics(struct jls_core_s * self, uint16_t signal_id,
                               int64_t start_sample_id, int64_t increment,
                               double * data, int64_t data_length) {
@@ -462,9 +480,11 @@ int32_t jls_core_fsr_statistics(struct jls_core_s * self, uint16_t signal_id,
         JLS_LOGE("invalid data entry size: %d", (int) s->header.entry_size_bits);
         return JLS_ERROR_PARAMETER_INVALID;
     }
-    jls_dt_buffer_to_f64(&s->data[0], signal_def->data_type, self->f64_sample_buf->start, signal_def->samples_per_data);
+    uint32_t entry_count = fsr_data_entry_count(s, signal_def);
+    jls_dt_buffer_to_f64(&s->data[0], signal_def->data_type, self->f64_sample_buf->start,
+                         fsr_data_convert_count(entry_count, signal_def));
     double * src = &self->f64_sample_buf->start[0];
-    double * src_end = &self->f64_sample_buf->start[s->header.entry_count];
+    double * src_end = &self->f64_sample_buf->start[entry_count];
     if (start_sample_id > chunk_sample_id) {
         src += start_sample_id - chunk_sample_id;
     }
@@ -484,9 +504,11 @@ int32_t jls_core_fsr_statistics(struct jls_core_s * self, uint16_t signal_id,
             ROE(jls_core_rd_fsr_data0(self, signal_id, start_sample_id));
             s = (struct jls_fsr_data_s *) self->buf->start;
             chunk_sample_id = s->header.timestamp;
-            jls_dt_buffer_to_f64(&s->data[0], signal_def->data_type, self->f64_sample_buf->start, signal_def->samples_per_data);
+            entry_count = fsr_data_entry_count(s, signal_def);
+            jls_dt_buffer_to_f64(&s->data[0], signal_def->data_type, self->f64_sample_buf->start,
+                                 fsr_data_convert_count(entry_count, signal_def));
             src = &self->f64_sample_buf->start[0];
-            src_end = &self->f64_sample_buf->start[s->header.entry_count];
+            src_end = &self->f64_sample_buf->start[entry_count];
         }
         v = *src++;
         v_mean += v;
